@@ -1,5 +1,4 @@
 CONSTANT SigCache = FALSE
-CONSTANT Devices <- FileDevices
 INIT TInit
 NEXT TNext
 CONSTRAINT Constr
